@@ -1054,15 +1054,49 @@ theorem appsTransmit_eff (now : Int) (hp : Bool) : ∀ (k : Nat) (c c1 : Ctx) (b
               obtain ⟨pre, hp', hd, pdu, a8, e1, e2, e3⟩ := hlink a d' hs3
               exact ⟨.transmit c.s.nextApp hp ans :: pre, hp', hd, pdu, a8, by rw [e1]; rfl, e2, e3⟩
 
+/-- How a token visit step ends: still using the token or awaiting a data reply (ring view untouched;
+when awaiting, the new callbacks end with the awaited request) — or, with nothing (more) to send,
+`PassToken` is entered; where the pass is evaluated in the same poll this continues like
+`do_pass_token` (GAP poll sent, or token transmitted and the own pass witnessed). -/
+def UseTail (c c' : Ctx) (now : Int) (new : List AppCall) : Prop :=
+  (c'.s.ring = c.s.ring ∧ ((∃ d' f', c'.s.st = .useToken d' f') ∨
+      ((∃ a d', c'.s.st = .awaitData a d') ∧ AwaitLink new c'.s))) ∨
+  (c'.s.st = .passToken true .first ∧ c'.s.ring = c.s.ring) ∨
+  ((∃ a, c'.s.st = .awaitStatus a) ∧ c'.s.ring = c.s.ring) ∨
+  (c'.s.ring = c.s.ring.witness c.s.p.address c.s.ring.ns ∧
+     (c'.s.st = .useToken ⟨now, none⟩ false ∨ c'.s.st = .checkTokenPass .first))
+
+theorem UseTail.link {c c' : Ctx} {now : Int} {new : List AppCall} (h : UseTail c c' now new) : AwaitLink new c'.s := by
+  intro a d hs
+  rcases h with ⟨-, ⟨_, _, h'⟩ | ⟨-, hl⟩⟩ | ⟨h', -⟩ | ⟨⟨_, h'⟩, -⟩ | ⟨-, h' | h'⟩
+  · rw [h'] at hs; cases hs
+  · exact hl a d hs
+  · rw [h'] at hs; cases hs
+  · rw [h'] at hs; cases hs
+  · rw [h'] at hs; cases hs
+  · rw [h'] at hs; cases hs
+
+theorem UseTail.ringEvo {c c' : Ctx} {now : Int} {new : List AppCall} (h : UseTail c c' now new) :
+    RingEvo c.s.p.address c.s.ring c'.s.ring := by
+  rcases h with ⟨h', -⟩ | ⟨-, h'⟩ | ⟨-, h'⟩ | ⟨h', -⟩
+  · exact .of_eq h'
+  · exact .of_eq h'
+  · exact .of_eq h'
+  · rw [h']; exact .witness _ _ (.refl _)
+
+theorem UseTail.congr {c0 c c' : Ctx} {now : Int} {new : List AppCall} (e1 : c0.s.ring = c.s.ring) (e2 : c0.s.p = c.s.p)
+    (h : UseTail c0 c' now new) : UseTail c c' now new := by
+  unfold UseTail at h ⊢
+  rw [e1, e2] at h
+  exact h
+
 /-- Outcomes of a token visit step that may ask applications. -/
-def UsePost (c c' : Ctx) : Prop :=
-  ∃ new, c'.calls = c.calls ++ new ∧ AskRun new ∧ c'.s.ring = c.s.ring ∧ c'.s.p = c.s.p ∧
-    c'.s.online = c.s.online ∧ c'.apps.length = c.apps.length ∧
-    ((∃ d' f', c'.s.st = .useToken d' f') ∨ c'.s.st = .passToken true .first ∨
-     ((∃ a d', c'.s.st = .awaitData a d') ∧ AwaitLink new c'.s))
+def UsePost (c c' : Ctx) (now : Int) : Prop :=
+  ∃ new, c'.calls = c.calls ++ new ∧ AskRun new ∧ c'.s.p = c.s.p ∧
+    c'.s.online = c.s.online ∧ c'.apps.length = c.apps.length ∧ UseTail c c' now new
 
 theorem useTokenGo_eff (c c' : Ctx) (now : Int) (d : UseData) (hp : Bool) (h : useTokenGo c now d hp = .ok c') :
-    UsePost c c' := by
+    UsePost c c' now := by
   unfold useTokenGo at h
   simp only [upd] at h
   rcases hat : appsTransmit now hp c.apps.length { c with s := { c.s with st := .useToken d true } } with ⟨r, b⟩
@@ -1074,29 +1108,30 @@ theorem useTokenGo_eff (c c' : Ctx) (now : Int) (d : UseData) (hp : Bool) (h : u
     cases b with
     | true =>
       cases h
-      refine ⟨new, hc, har, hr, hpp, ho, hl, ?_⟩
+      refine ⟨new, hc, har, hpp, ho, hl, .inl ⟨hr, ?_⟩⟩
       rcases hcase with ⟨d', h'⟩ | h'
       · exact .inl ⟨d', true, h'⟩
-      · exact .inr (.inr h')
+      · exact .inr h'
     | false =>
       simp only at h
       obtain ⟨s', hs', hc'⟩ := tr_inv h
       have := toPassToken_inv hs'
       subst this; subst hc'
-      exact ⟨new, hc, har, hr, hpp, ho, hl, .inr (.inl rfl)⟩
+      exact ⟨new, hc, har, hpp, ho, hl, .inr (.inl ⟨rfl, hr⟩)⟩
 
 theorem doUseToken_eff (c c' : Ctx) (now : Int) (d : UseData) (fcd : Bool) (hst : c.s.st = .useToken d fcd)
-    (h : doUseToken c now = .ok c') : UsePost c c' := by
+    (h : doUseToken c now = .ok c') : UsePost c c' now := by
   unfold doUseToken at h
   rw [hst] at h
   simp only at h
   have lift : ∀ c0 : Ctx, c0.calls = c.calls → c0.apps = c.apps → c0.s.ring = c.s.ring → c0.s.p = c.s.p →
-      c0.s.online = c.s.online → UsePost c0 c' → UsePost c c' := by
-    intro c0 e1 e2 e3 e4 e5 ⟨new, hc, har, hr, hpp, ho, hl, hcase⟩
-    exact ⟨new, by rw [hc, e1], har, hr.trans e3, hpp.trans e4, ho.trans e5, by rw [hl, e2], hcase⟩
+      c0.s.online = c.s.online → UsePost c0 c' now → UsePost c c' now := by
+    intro c0 e1 e2 e3 e4 e5 hp
+    obtain ⟨new, hc, har, hpp, ho, hl, htail⟩ := hp
+    exact ⟨new, by rw [hc, e1], har, hpp.trans e4, ho.trans e5, by rw [hl, e2], htail.congr e3 e4⟩
   rcases ite_inv h with ⟨_, h⟩ | ⟨_, h⟩
   · cases h
-    exact ⟨[], by simp, askRun_nil, by simp, by simp, by simp, rfl, .inl ⟨d, fcd, by simpa using hst⟩⟩
+    exact ⟨[], by simp, askRun_nil, by simp, by simp, rfl, .inl ⟨by simp, .inl ⟨d, fcd, by simpa using hst⟩⟩⟩
   · rcases ite_inv h with ⟨_, h⟩ | ⟨_, h⟩
     · exact lift { c with s := (waitSyncPause (holdUpdate c.s d) now).1 } rfl rfl (by simp) (by simp) (by simp) (useTokenGo_eff _ c' now d false h)
     · rcases ite_inv h with ⟨_, h⟩ | ⟨_, h⟩
@@ -1104,22 +1139,21 @@ theorem doUseToken_eff (c c' : Ctx) (now : Int) (d : UseData) (fcd : Bool) (hst 
       · obtain ⟨s', hs', hc'⟩ := tr_inv h
         have := toPassToken_inv hs'
         subst this; subst hc'
-        exact ⟨[], by simp, askRun_nil, by simp, by simp, by simp, rfl, .inr (.inl rfl)⟩
+        exact ⟨[], by simp, askRun_nil, by simp, by simp, rfl, .inr (.inl ⟨rfl, by simp⟩)⟩
 
 /-- Outcomes of a poll in `AwaitDataResponse`: keep waiting; deliver the (admitted) reply to the
 requesting application; drop an inadmissible telegram and back off to `ActiveIdle`; or deliver the
 time-out and continue the token visit at once. -/
-def AwaitPost (c c' : Ctx) (a : Nat) (d : UseData) : Prop :=
-  c'.s.ring = c.s.ring ∧ c'.s.p = c.s.p ∧ c'.s.online = c.s.online ∧ c'.apps.length = c.apps.length ∧
-  ((c'.calls = c.calls ∧ c'.s.st = .awaitData a d ∧ c'.s.nextApp = c.s.nextApp) ∨
-   (∃ t, validReplyB c.s.p.address a t = true ∧ c'.calls = c.calls ++ [.reply c.s.nextApp a t] ∧ c'.s.st = .useToken d true) ∨
-   (c'.calls = c.calls ∧ c'.s.st = .activeIdle none none 0) ∨
-   (∃ new, c'.calls = c.calls ++ .timeout c.s.nextApp a :: new ∧ AskRun new ∧
-      ((∃ d' f', c'.s.st = .useToken d' f') ∨ c'.s.st = .passToken true .first ∨
-       ((∃ a' d', c'.s.st = .awaitData a' d') ∧ AwaitLink new c'.s))))
+def AwaitPost (c c' : Ctx) (now : Int) (a : Nat) (d : UseData) : Prop :=
+  c'.s.p = c.s.p ∧ c'.s.online = c.s.online ∧ c'.apps.length = c.apps.length ∧
+  ((c'.calls = c.calls ∧ c'.s.st = .awaitData a d ∧ c'.s.nextApp = c.s.nextApp ∧ c'.s.ring = c.s.ring) ∨
+   (∃ t, validReplyB c.s.p.address a t = true ∧ c'.calls = c.calls ++ [.reply c.s.nextApp a t] ∧
+      c'.s.st = .useToken d true ∧ c'.s.ring = c.s.ring) ∨
+   (c'.calls = c.calls ∧ c'.s.st = .activeIdle none none 0 ∧ c'.s.ring = c.s.ring) ∨
+   (∃ new, c'.calls = c.calls ++ .timeout c.s.nextApp a :: new ∧ AskRun new ∧ UseTail c c' now new))
 
 theorem doAwaitDataResponse_eff (c c' : Ctx) (now : Int) (a : Nat) (d : UseData) (hst : c.s.st = .awaitData a d)
-    (h : doAwaitDataResponse c now = .ok c') : AwaitPost c c' a d := by
+    (h : doAwaitDataResponse c now = .ok c') : AwaitPost c c' now a d := by
   unfold doAwaitDataResponse at h
   rcases hrx : receiveTelegram c.rx with ⟨rx', calls, ret⟩ | _ | _ <;> rw [hrx, hst] at h <;> simp only at h
   · rcases ite_inv h with ⟨_, h⟩ | ⟨_, h⟩
@@ -1135,11 +1169,11 @@ theorem doAwaitDataResponse_eff (c c' : Ctx) (now : Int) (a : Nat) (d : UseData)
         subst this; subst hc'
         simp only [upd, Res.ok.injEq] at ht
         subst ht
-        obtain ⟨new, hc, har, hr, hpp, ho, hl, hcase⟩ := doUseToken_eff _ c' now d true rfl h
-        exact ⟨by simpa using hr, by simpa using hpp, by simpa using ho, by simpa using hl,
-          .inr (.inr (.inr ⟨new, by simpa using hc, har, hcase⟩))⟩
+        obtain ⟨new, hc, har, hpp, ho, hl, htail⟩ := doUseToken_eff _ c' now d true rfl h
+        exact ⟨by simpa using hpp, by simpa using ho, by simpa using hl,
+          .inr (.inr (.inr ⟨new, by simpa using hc, har, htail.congr (by simp) (by simp)⟩))⟩
       · cases h
-        exact ⟨by simp, by simp, by simp, rfl, .inl ⟨rfl, by simpa using hst, by simp⟩⟩
+        exact ⟨by simp, by simp, rfl, .inl ⟨rfl, by simpa using hst, by simp, by simp⟩⟩
     | cons x rest =>
       obtain ⟨t, fl⟩ := x
       simp only at h
@@ -1150,7 +1184,7 @@ theorem doAwaitDataResponse_eff (c c' : Ctx) (now : Int) (a : Nat) (d : UseData)
         subst this; subst hc'
         simp only [upd, Res.ok.injEq] at ht
         subst ht
-        refine ⟨by simp, by simp, by simp, rfl, .inr (.inl ⟨t, ?_, rfl, rfl⟩)⟩
+        refine ⟨by simp, by simp, rfl, .inr (.inl ⟨t, ?_, rfl, rfl, by simp⟩)⟩
         cases t with
         | token da sa => simp at hv
         | sc => rfl
@@ -1161,7 +1195,7 @@ theorem doAwaitDataResponse_eff (c c' : Ctx) (now : Int) (a : Nat) (d : UseData)
       · obtain ⟨s', hs', hc'⟩ := tr_inv h
         have := toActiveIdle_inv hs'
         subst this; subst hc'
-        exact ⟨by simp, by simp, by simp, rfl, .inr (.inr (.inl ⟨rfl, rfl⟩))⟩
+        exact ⟨by simp, by simp, rfl, .inr (.inr (.inl ⟨rfl, rfl, by simp⟩))⟩
   · rcases ite_inv h with ⟨_, h⟩ | ⟨_, h⟩ <;> cases h
   · rcases ite_inv h with ⟨_, h⟩ | ⟨_, h⟩ <;> cases h
 
@@ -1194,9 +1228,9 @@ def StatusPost (c c' : Ctx) (now : Int) (a : Nat) : Prop :=
 structure DispatchPost (c c' : Ctx) (now : Int) : Prop where
   listen : ∀ sr coll, c.s.st = .listenToken sr coll → ListenPost c c' sr
   idle : ∀ sr np coll, c.s.st = .activeIdle sr np coll → IdlePost c c' now sr np
-  use : ∀ d fcd, c.s.st = .useToken d fcd → UsePost c c'
+  use : ∀ d fcd, c.s.st = .useToken d fcd → UsePost c c' now
   claim : ∀ step, c.s.st = .claimToken step → ClaimPost c c'
-  await : ∀ a d, c.s.st = .awaitData a d → AwaitPost c c' a d
+  await : ∀ a d, c.s.st = .awaitData a d → AwaitPost c c' now a d
   pass : ∀ g att, c.s.st = .passToken g att → PassPost c c' g att now
   check : ∀ att, c.s.st = .checkTokenPass att → CheckPost c c' now att
   status : ∀ a, c.s.st = .awaitStatus a → StatusPost c c' now a
@@ -1372,28 +1406,21 @@ theorem poll_calls (s : Station) (apps : Apps) (now : Int) (phy : Bool) (rx : By
         intro a d h
         rcases hs with h' | h' | h' | h' | h' <;> rw [h'] at h <;> cases h
       | useToken d fcd =>
-        obtain ⟨new, hc, har, -, -, -, -, hcase⟩ := hd.use d fcd (by simpa using hst)
+        obtain ⟨new, hc, har, -, -, -, htail⟩ := hd.use d fcd (by simpa using hst)
         have hc' : c'.calls = new := by simpa using hc
         refine .inr (.inl ⟨hon, ⟨d, fcd, rfl⟩, by rw [hc']; exact har, ?_⟩)
         rw [hc']
-        rcases hcase with ⟨_, _, h'⟩ | h' | ⟨-, hl⟩
-        · intro a d h; rw [h'] at h; cases h
-        · intro a d h; rw [h'] at h; cases h
-        · exact hl
+        exact htail.link
       | awaitData a d =>
-        obtain ⟨-, -, -, -, hcase⟩ := hd.await a d (by simpa using hst)
-        rcases hcase with ⟨hc, hs, hn⟩ | ⟨t, hv, hc, hs⟩ | ⟨hc, hs⟩ | ⟨new, hc, har, hcase⟩
+        obtain ⟨-, -, -, hcase⟩ := hd.await a d (by simpa using hst)
+        rcases hcase with ⟨hc, hs, hn, -⟩ | ⟨t, hv, hc, hs, -⟩ | ⟨hc, hs, -⟩ | ⟨new, hc, har, htail⟩
         · refine .inl ⟨by simpa using hc, fun a' d' h => ?_⟩
           rw [hs] at h; cases h
           exact ⟨rfl, by simpa using hn⟩
         · exact .inr (.inr ⟨hon, a, d, rfl, .inl ⟨t, by simpa using hv, by simpa using hc, hs⟩⟩)
         · refine .inl ⟨by simpa using hc, fun a' d' h => ?_⟩
           rw [hs] at h; cases h
-        · refine .inr (.inr ⟨hon, a, d, rfl, .inr ⟨new, by simpa using hc, har, ?_⟩⟩)
-          rcases hcase with ⟨_, _, h'⟩ | h' | ⟨-, hl⟩
-          · intro a d h; rw [h'] at h; cases h
-          · intro a d h; rw [h'] at h; cases h
-          · exact hl
+        · exact .inr (.inr ⟨hon, a, d, rfl, .inr ⟨new, by simpa using hc, har, htail.link⟩⟩)
     · rw [hw] at hd
       obtain ⟨hq, -, hs⟩ := hd.listen none 0 (by simp)
       refine .inl (quiet rfl hq ?_)
@@ -1422,10 +1449,10 @@ theorem poll_frame (s : Station) (apps : Apps) (now : Int) (phy : Bool) (rx : By
       | checkTokenPass att => exact quiet (by simp) rfl (hd.check att (by simpa using hst)).1
       | awaitStatus a0 => exact quiet (by simp) rfl (hd.status a0 (by simpa using hst)).1
       | useToken d fcd =>
-        obtain ⟨new, -, -, -, hp, -, hl, -⟩ := hd.use d fcd (by simpa using hst)
+        obtain ⟨new, -, -, hp, -, hl, -⟩ := hd.use d fcd (by simpa using hst)
         exact ⟨by simpa using hp, by simpa using hl⟩
       | awaitData a d =>
-        obtain ⟨-, hp, -, hl, -⟩ := hd.await a d (by simpa using hst)
+        obtain ⟨hp, -, hl, -⟩ := hd.await a d (by simpa using hst)
         exact ⟨by simpa using hp, by simpa using hl⟩
     · rw [hw] at hd
       exact quiet (by simp) rfl (hd.listen none 0 (by simp)).1
@@ -1476,11 +1503,15 @@ theorem poll_ring (s : Station) (apps : Apps) (now : Int) (phy : Bool) (rx : Byt
       | passToken g att => exact .inl (by simpa using (hd.pass g att (by simpa using hst)).ringEvo)
       | awaitStatus a0 => exact .inl (by simpa using (hd.status a0 (by simpa using hst)).2.2.1)
       | useToken d fcd =>
-        obtain ⟨new, -, -, hr, -⟩ := hd.use d fcd (by simpa using hst)
-        exact .inl (.of_eq (by simpa using hr))
+        obtain ⟨new, -, -, -, -, -, htail⟩ := hd.use d fcd (by simpa using hst)
+        exact .inl (by simpa using htail.ringEvo)
       | awaitData a d =>
-        obtain ⟨hr, -⟩ := hd.await a d (by simpa using hst)
-        exact .inl (.of_eq (by simpa using hr))
+        obtain ⟨-, -, -, hcase⟩ := hd.await a d (by simpa using hst)
+        rcases hcase with ⟨-, -, -, hr⟩ | ⟨t, -, -, -, hr⟩ | ⟨-, -, hr⟩ | ⟨new, -, -, htail⟩
+        · exact .inl (.of_eq (by simpa using hr))
+        · exact .inl (.of_eq (by simpa using hr))
+        · exact .inl (.of_eq (by simpa using hr))
+        · exact .inl (by simpa using htail.ringEvo)
       | checkTokenPass att =>
         obtain ⟨-, -, hcase⟩ := hd.check att (by simpa using hst)
         rcases hcase with ⟨hex, r0, att', hrs, hpost⟩ | ⟨-, rx', calls, ret, -, hpost⟩
